@@ -24,3 +24,5 @@ def check(ctx):
     wal.check_torn_tail(ctx)
     wal.check_reassembly(ctx)
     wal.check_silent_skip(ctx)
+    from . import c11
+    c11.check_log_checksums(ctx)    # a record is delivered only after its CRC matched
